@@ -100,8 +100,14 @@ impl World {
                 self.dut.set_adr(*on)
             }
             Op::Listen { frames, fault } => {
-                self.env.borrow_mut().begin_op(idx, None, Some((frames, fault)), format!("rxc_listen ({} frames)", frames.len()));
-                self.dut.listen()
+                // documented domain: Class C listening presupposes a session
+                if self.dut.is_joined() {
+                    self.env.borrow_mut().begin_op(idx, None, Some((frames, fault)), format!("rxc_listen ({} frames)", frames.len()));
+                    self.dut.listen()
+                } else {
+                    self.env.borrow_mut().begin_op(idx, None, None, "rxc_listen skipped: no session (outside the documented domain)".into());
+                    OpResult::Done
+                }
             }
             Op::SaveRestore => {
                 self.env.borrow_mut().begin_op(idx, None, None, "save session / power loss / restore".into());
